@@ -17,7 +17,7 @@ Budget == steps < Depth
 MInit(s, k, m) == Budget /\ k \in KindsOf(m) /\ InitOp(s, k, ModeTable[m], TRUE) /\ H(<<"MInit", s, k, m>>)
 
 Lfix(x) == IF x.mode.fixed > 0 THEN x.mode.fixed ELSE 1
-Optimistic(s, fn, bc) ==
+Optimistic(s, fn, bc) == [val |-> "na", fedn |-> 0 - 1] @@
     LET x == ses[s] IN
     IF x.op # KindOf(fn) THEN [rv |-> "OPERATION_NOT_INITIALIZED", L |-> 0, w |-> 0]
     ELSE IF ~HasOutput(fn) THEN [rv |-> "OK", L |-> 0, w |-> 0]
